@@ -40,6 +40,9 @@ def main():
         fid = f[:-5]
         slug = fid.split("-", 1)[1] if "-" in fid else fid
         fixes = [n for n in mds if fix2sha.get(n) and (n == fid or n.split("-", 1)[1] == slug or re.search(re.escape(fid) + r"(?![\w-])", mds[n]))]
+        # a rationale that names a finding only to say it is NOT repaired must not count
+        fixes = [n for n in fixes if n == fid or n.split("-", 1)[1] == slug
+                 or not re.search(r"(?i)(not repaired|remains? a known finding|still a known finding)[^\n]*" + re.escape(fid), mds[n])]
         if not fixes:
             continue
         path = os.path.join(d, f)
